@@ -466,8 +466,11 @@ func init() {
 	explain["C11"] += " continues-merged: 's3db_version() is left unchanged by refreshes that change nothing' — Commit returns early only for a clean tree with a Source; mergeRoots sets Source iff exactly one version was merged. Listed and merged differ when a listed version was set aside as unreadable (a peer's version whose nodes are not there yet): deciding by the listing leaves Source nil although one version was merged, and every writable open or refresh then commits a new, identical version and retires the previous one. The map that mergeRoots returns as the merged set is the operand of the len(...) == 1 test that guards the store, and the stored name is taken from it."
 }
 
-func c11ContinuesMerged(c *Ctx) {
-	const rule = "C11.continues-merged"
+func c11ContinuesMerged(c *Ctx) { continuesMerged(c, "C11.continues-merged") }
+
+// continuesMerged is shared by C11.continues-merged and C16.single-source (the same clause, claimed
+// for two properties under the name each of them introduced it with).
+func continuesMerged(c *Ctx, rule string) {
 	fn := mustFunc(c, "kv", "", "mergeRoots")
 	srcF := mustField(c, "kv/internal/crdt", "Tree", "Source")
 	if fn == nil || srcF == nil {
